@@ -65,6 +65,14 @@ def run_spec(spec, repo_root=None, timeout=1500):
             return out
         with open(tgt, "a") as fh:
             fh.write("\n#[cfg(test)]\n#[path = \"%s\"]\nmod %s;\n" % (spec["rs"], spec["module"]))
+        # optional helper modules appended to other files (private items of two files needed by one harness)
+        for extra in spec.get("also_inject", []):
+            et = os.path.join(sc, "repo", spec["crate_dir"], extra["inject_into"])
+            if not os.path.exists(et):
+                out["error"] = "file to inject into is missing: %s" % extra["inject_into"]
+                return out
+            with open(et, "a") as fh:
+                fh.write("\n#[cfg(test)]\n#[path = \"%s\"]\npub(crate) mod %s;\n" % (os.path.join(WDIR, extra["rs"]), extra["module"]))
         env = dict(os.environ, CARGO_NET_OFFLINE="true", CARGO_TARGET_DIR=os.path.join(VERIF, "build", "witness_target"), RUST_BACKTRACE="0")
         cmd = ["cargo", "test", "--offline", "-p", spec["package"]] + spec["target"] + ["--", "--nocapture", "--test-threads", "1", spec["filter"]]
         out["cmd"] = "cd <scratch copy of the tree with `mod %s` (file %s) appended to %s/%s> && %s" % (
